@@ -12,6 +12,12 @@ Translated on every run from the CURRENT source:
   quara/objects/effective_lindbladian.py   _calc_j_mat_from_k_mat_with_sparsity / _calc_k_part_from_k_mat_with_sparsity
         -> gen_j_of_k_sparse, gen_k_part_sparse : nat -> cmat -> cmat -> cmat  (dim, the table as an opaque matrix, k_mat) with `k_mat.flatten()` = the
            ROW-MAJOR vectorisation (vecr) whatever the memory layout and `.reshape((a, a))` = unvecr;  gen_sparse_tables : which helper reads which table
+  quara/objects/effective_lindbladian.py   _calc_h_part_from_h_mat / _calc_j_part_from_j_mat  -> gen_h_part, gen_j_part : nat -> cmat -> cmat
+                                           generate_hs_from_hjk / _hk / _h / _k  -> gen_lcb_hjk / _hk / _h / _k : nat -> Tj -> Tk -> matrices -> cmat : the
+           computational-basis generator that is handed to convert_hs(., c_sys.comp_basis(), c_sys.basis()) and then to
+           _truncate_hs(., eps_truncate_imaginary_part) (that post-processing is REQUIRED structurally), built from the translated helpers
+           (the wrappers _calc_k_part_from_k_mat / _calc_j_mat_from_k_mat must forward to the *_with_sparsity helpers);
+           gen_lcb_*_checks : the _check_X_mat(X, dim) calls in call order
   quara/objects/effective_lindbladian.py   EffectiveLindbladian.calc_proj_ineq_constraint
         -> gen_proj_ineq_kmat : nat -> list F -> cmat -> cmat   (dim, eigenvals, eigenvecs = the two results of the OPAQUE numpy.linalg.eigh(k_mat)):
            the clipping loop and V diag(l) V^dagger;  gen_proj_ineq_args : which of h_mat / j_mat / k_mat / the new matrix are handed to
@@ -134,6 +140,9 @@ class Fn:
             if t1 != t2:
                 fail(node, "branches of different types")
             return t1, "(if %s then %s else %s)" % (c, e1, e2)
+        if isinstance(node, ast.Subscript) and isinstance(node.slice, ast.Constant) and node.slice.value == 0 and isinstance(node.value, ast.Attribute) \
+                and node.value.attr == "shape" and isinstance(node.value.value, ast.Name) and self.env.get(node.value.value.id, (None,))[0] == MD:
+            return N, "dim"                                  # X.shape[0] of a d x d matrix
         if isinstance(node, ast.Subscript):
             return self.subscript(node)
         if isinstance(node, ast.Attribute) and node.attr == "T":
@@ -679,6 +688,104 @@ def translate_proj_ineq(fdef):
             + "Definition gen_proj_ineq_args : list string := [%s]." % "; ".join('"%s"%%string' % a for a in args))
 
 
+def translate_part_helper(fdef, cname):
+    """_calc_h_part_from_h_mat / _calc_j_part_from_j_mat: identity = np.eye(X.shape[0]); return <expression>"""
+    if len(fdef.args.args) != 1:
+        fail(fdef, "parameters")
+    pn = fdef.args.args[0].arg
+    fn = Fn(fdef.name, [], {})
+    fn.env[pn] = (MD, pn)
+    lets, result = [], None
+    for st in strip_doc(fdef.body):
+        if result is not None:
+            fail(st, "statement after return")
+        if isinstance(st, ast.Assign) and len(st.targets) == 1 and isinstance(st.targets[0], ast.Name):
+            t, e = fn.expr(st.value)
+            lets.append("let %s_ := %s in" % (st.targets[0].id, e))
+            fn.env[st.targets[0].id] = (t, st.targets[0].id + "_")
+        elif isinstance(st, ast.Return):
+            t, e = fn.expr(st.value)
+            if t != MN:
+                fail(st, "return type %s" % (t,))
+            result = e
+        else:
+            fail(st, "statement outside the subset")
+    if result is None:
+        fail(fdef, "no return")
+    return "Definition %s (dim : nat) (%s : cmat) : cmat :=\n  %s\n  %s." % (cname, pn, "\n  ".join(lets), result)
+
+
+def check_wrapper(tree, name, target):
+    """def name(k_mat, c_sys): return target(k_mat, c_sys)"""
+    f = find_def(tree, name)
+    body = strip_doc(f.body)
+    if [a.arg for a in f.args.args] != ["k_mat", "c_sys"] or len(body) != 1 or not isinstance(body[0], ast.Return):
+        fail(f, "wrapper shape")
+    v = body[0].value
+    if not (isinstance(v, ast.Call) and isinstance(v.func, ast.Name) and v.func.id == target and not v.keywords and len(v.args) == 2
+            and all(isinstance(a, ast.Name) for a in v.args) and [a.id for a in v.args] == ["k_mat", "c_sys"]):
+        fail(f, "wrapper does not forward to %s(k_mat, c_sys)" % target)
+
+
+def translate_constructor(fdef, cname, mats):
+    """generate_hs_from_hjk / _hk / _h / _k: dim = c_sys.dim; _check_X_mat(X, dim) calls; parts from the translated helpers; their sum;
+    convert_hs(., c_sys.comp_basis(), c_sys.basis()); _truncate_hs(., eps_truncate_imaginary_part); return.
+    returns (definition of the comp-basis generator, list of checks in call order, post-processing description)"""
+    want = ["c_sys"] + mats + ["eps_truncate_imaginary_part"]
+    if [a.arg for a in fdef.args.args] != want:
+        fail(fdef, "parameters %s, expected %s" % ([a.arg for a in fdef.args.args], want))
+    fn = Fn(fdef.name, [], {})
+    for mname in mats:
+        fn.env[mname] = (MM if mname == "k_mat" else MD, mname)
+    helpers = {"_calc_h_part_from_h_mat": ("gen_h_part", MD, MN, False), "_calc_j_part_from_j_mat": ("gen_j_part", MD, MN, False),
+               "_calc_k_part_from_k_mat": ("gen_k_part_sparse", MM, MN, True), "_calc_j_mat_from_k_mat": ("gen_j_of_k_sparse", MM, MD, True)}
+    lets, checks, stage, result = [], [], {}, None
+    for st in strip_doc(fdef.body):
+        if result is not None:
+            fail(st, "statement after return")
+        if isinstance(st, ast.Assign) and len(st.targets) == 1 and isinstance(st.targets[0], ast.Name):
+            nm, v = st.targets[0].id, st.value
+            if is_attr_chain(v, ["c_sys", "dim"]):
+                fn.env[nm] = (N, "dim"); continue
+            if isinstance(v, ast.Call) and isinstance(v.func, ast.Name) and v.func.id in helpers and not v.keywords:
+                cq, at, rt, with_sys = helpers[v.func.id]
+                if len(v.args) != (2 if with_sys else 1) or (with_sys and not (isinstance(v.args[1], ast.Name) and v.args[1].id == "c_sys")):
+                    fail(st, "helper call shape")
+                t, e = fn.expr(v.args[0])
+                if t != at:
+                    fail(st, "helper argument type")
+                tab = {"gen_k_part_sparse": " Tk", "gen_j_of_k_sparse": " Tj"}.get(cq, "")
+                lets.append("let %s_ := (%s dim%s %s) in" % (nm, cq, tab, e))
+                fn.env[nm] = (rt, nm + "_"); continue
+            if isinstance(v, ast.Call) and isinstance(v.func, ast.Name) and v.func.id == "convert_hs" and len(v.args) == 3 and not v.keywords \
+                    and isinstance(v.args[0], ast.Name) and is_call(v.args[1], ["c_sys", "comp_basis"], 0) and is_call(v.args[2], ["c_sys", "basis"], 0):
+                t, e = fn.expr(v.args[0])
+                if t != MN:
+                    fail(st, "convert_hs of %s" % (t,))
+                stage[nm] = ("converted", e); continue
+            if isinstance(v, ast.Call) and isinstance(v.func, ast.Name) and v.func.id == "_truncate_hs" and len(v.args) == 2 and not v.keywords \
+                    and isinstance(v.args[0], ast.Name) and stage.get(v.args[0].id, (None,))[0] == "converted" \
+                    and isinstance(v.args[1], ast.Name) and v.args[1].id == "eps_truncate_imaginary_part":
+                stage[nm] = ("truncated", stage[v.args[0].id][1]); continue
+            t, e = fn.expr(v)
+            lets.append("let %s_ := %s in" % (nm, e))
+            fn.env[nm] = (t, nm + "_")
+        elif isinstance(st, ast.Expr) and isinstance(st.value, ast.Call) and isinstance(st.value.func, ast.Name) and st.value.func.id in ("_check_h_mat", "_check_j_mat", "_check_k_mat") \
+                and len(st.value.args) == 2 and not st.value.keywords and all(isinstance(a, ast.Name) for a in st.value.args) \
+                and fn.env.get(st.value.args[1].id) == (N, "dim") and st.value.args[0].id in mats:
+            checks.append((st.value.func.id, st.value.args[0].id))
+        elif isinstance(st, ast.Return) and isinstance(st.value, ast.Name) and stage.get(st.value.id, (None,))[0] == "truncated":
+            result = stage[st.value.id][1]
+        else:
+            fail(st, "statement outside the subset")
+    if result is None:
+        fail(fdef, "no return of truncate(convert(.))")
+    ps = " ".join("(%s : cmat)" % mname for mname in mats)
+    d = "Definition %s (dim : nat) (Tj Tk : cmat) %s : cmat :=\n  %s\n  %s." % (cname, ps, "\n  ".join(lets), result)
+    c = "Definition %s_checks : list (string * string) := [%s]." % (cname, "; ".join('("%s"%%string, "%s"%%string)' % x for x in checks))
+    return d + "\n" + c
+
+
 def find_def(tree, name, cls=None):
     scope = tree.body
     if cls is not None:
@@ -746,6 +853,13 @@ def main():
         for py, cq, rt in [("_calc_j_mat_from_k_mat_with_sparsity", "gen_j_of_k_sparse", MD), ("_calc_k_part_from_k_mat_with_sparsity", "gen_k_part_sparse", MN)]:
             dfn, tab = translate_sparse_helper(find_def(el, py), cq, rt)
             defs.append(dfn); used.append((py, tab))
+        defs.append(translate_part_helper(find_def(el, "_calc_h_part_from_h_mat"), "gen_h_part"))
+        defs.append(translate_part_helper(find_def(el, "_calc_j_part_from_j_mat"), "gen_j_part"))
+        check_wrapper(el, "_calc_k_part_from_k_mat", "_calc_k_part_from_k_mat_with_sparsity")
+        check_wrapper(el, "_calc_j_mat_from_k_mat", "_calc_j_mat_from_k_mat_with_sparsity")
+        for py, cq, mats in [("generate_hs_from_hjk", "gen_lcb_hjk", ["h_mat", "j_mat", "k_mat"]), ("generate_hs_from_hk", "gen_lcb_hk", ["h_mat", "k_mat"]),
+                             ("generate_hs_from_h", "gen_lcb_h", ["h_mat"]), ("generate_hs_from_k", "gen_lcb_k", ["k_mat"])]:
+            defs.append(translate_constructor(find_def(el, py), cq, mats))
         defs.append(translate_proj_ineq(find_def(el, "calc_proj_ineq_constraint", "EffectiveLindbladian")))
         defs.append("Definition gen_sparse_tables : list (string * string) := [%s]." % "; ".join('("%s"%%string, "%s"%%string)' % u for u in used))
     except Unsupported as e:
